@@ -92,7 +92,27 @@ def check(rule_arm, fn, exc, cond_ok, effects, what, effect_desc):
             good = (t, gb, c)
             break
     if not good:
-        obs.append(Ob('GUARD-DOM', fn, live[0], what, 'rejection is guarded by `' + '` / `'.join(seen) + '`, not by the documented condition', VIOLATED, arm=rule_arm))
+        # the documented test may be one conjunct of a larger condition (`!first_pair && a < b`): whether the other conjuncts are
+        # vacuous where they matter is not decided here - undecided, never a pass
+        part = False
+        for t in live:
+            gb, c = guard_of(fn, t)
+            if gb is None:
+                continue
+
+            def conj(x, out):
+                x = strip_cast(x)
+                if x[0] == 'op' and len(x) == 4 and x[1] == '&&':
+                    conj(x[2], out)
+                    conj(x[3], out)
+                else:
+                    out.append(x)
+                return out
+            cs_ = conj(fn.term(c, inline=True), [])
+            if len(cs_) > 1 and any(cond_ok(x, fn) for x in cs_):
+                part = True
+        obs.append(Ob('GUARD-DOM', fn, live[0], what, 'rejection is guarded by `' + '` / `'.join(seen) + '`, ' +
+                      ('of which the documented condition is only one conjunct' if part else 'not by the documented condition'), UNDECIDED if part else VIOLATED, arm=rule_arm))
         return obs
     t, gb, c = good
     late = [e for e in effects if reachable(fn, e) and not dominates_node(fn, gb, e)]
@@ -219,6 +239,11 @@ def rules_c20(ctx):
     for u in ctx.all_units():
         for f in u.functions.values():
             if not (f.tname.startswith('pgm::') or f.file.endswith('cpgm.cpp')):
+                continue
+            from ir import known_names
+            if f.tname not in known_names()['functions'] and '(lambda)' not in f.tname:
+                # a helper introduced by a refactoring: its body is examined where it was inlined (rules/inline.py), under the guards
+                # of the function that calls it; when nothing calls it, it is dead code
                 continue
             for c in f.calls(pred=lambda nd: nd.get('ct') in ('pgm::internal::make_segmentation', 'pgm::internal::make_segmentation_par')):
                 if not reachable(f, c):
@@ -396,11 +421,29 @@ def rules_c20(ctx):
         okl = False
         why = 'last_x is never assigned'
         if lx:
-            w = lx[0]
+            X = ('param', f.params[0]['name'])
+
+            def is_x(t, depth=0):
+                # x itself, or the abscissa of a point built from it (p1 = Point{x, y + epsilon}; last_x = p1.x), also through an
+                # assignment chain (first_x = last_x = p1.x)
+                t = strip_cast(t)
+                if t == X:
+                    return True
+                if t[0] == 'op' and len(t) == 4 and t[1] == '=' and depth < 3:
+                    return is_x(t[3], depth + 1)
+                if t[0] == 'field' and t[1] == 'x' and depth < 3:
+                    b_ = strip_cast(t[2])
+                    if b_[0] in ('construct', 'init'):
+                        els = b_[2] if b_[0] == 'construct' else b_[1:]
+                        return bool(els) and is_x(els[0], depth + 1)
+                return False
+            goodw = [w for w in lx if is_x(f.term(f.n(w)['ch'][1], inline=True))]
+            badw = [w for w in lx if w not in goodw]
+            pbs = {f.block_of(w)[0] for w in goodw if f.block_of(w)}
+            okl = bool(goodw) and not badw and g.must_pass(g.entry, g.exit, pbs | {b for b in g.reach if g.blocks[b].get('noreturn')} | _throw_blocks(f))
+            w = (badw or lx)[0]
             rhs = f.term(f.n(w)['ch'][1], inline=True)
-            pb = f.block_of(w)[0]
-            okl = rhs == ('param', f.params[0]['name']) and g.must_pass(g.entry, g.exit, {pb} | {b for b in g.reach if g.blocks[b].get('noreturn')} | _throw_blocks(f))
-            why = f"last_x = {fmt_term(rhs)} at line {f.n(w)['l']} on every non-throwing path: {okl}"
+            why = (f"last_x = {fmt_term(rhs)} at line {f.n(w)['l']}" if len(lx) == 1 else f"{len(lx)} assignments of last_x ({len(badw)} not from x)") + f" on every non-throwing path: {okl}"
         obs.append(Ob('GUARD-DOM', f, lx[0] if lx else 0, 'the predecessor key compared against is updated on every accepted point', why, OK if okl else VIOLATED, arm='G9:predecessor'))
     # G10: OptimalPiecewiseLinearModel(epsilon)
     for f in ctx.need('pgm::internal::OptimalPiecewiseLinearModel::OptimalPiecewiseLinearModel', U):
